@@ -14,6 +14,10 @@ from concurrent.futures import ThreadPoolExecutor
 from . import common, oracles
 
 
+# hint sites outside GlGadgets' four inside this code region are probed with generic alternatives after run() (bin/check, common.Ctx.foreign)
+FOREIGN = (("poseidon.(*GoldilocksChip)",), ("testdata",))
+
+
 def run(ctx):
     ctx.rule = ("permutation: all-zero, all p-1, single-hot edge values at three positions, seeded random states; hash: every input length "
                 "0..40 x output lengths (seeded, and {1,4,8,9,12} at multiples of 7) x {HashNToMNoPad canonical, HashNoPad with value+k*p}; "
